@@ -43,6 +43,9 @@ pub struct KnownFinding {
     pub case_hash: Option<u64>,
     /// family for class-level entries
     pub family: Option<String>,
+    /// class-level entries only apply to inputs whose provenance starts with this prefix (the seeded hostile exploration);
+    /// inputs of the fixed corpus are always judged against their own per-input entries
+    pub origin_prefix: Option<String>,
     pub what: String,
 }
 
@@ -65,6 +68,7 @@ impl KnownFindings {
                     signature: e["signature"].as_str().unwrap_or("").to_string(),
                     case_hash: e["case_hash"].as_str().map(|s| u64::from_str_radix(s, 16).unwrap()),
                     family: e["family"].as_str().map(|s| s.to_string()),
+                    origin_prefix: e["origin_prefix"].as_str().map(|s| s.to_string()),
                     what: e["what"].as_str().unwrap_or("").to_string(),
                 });
             }
@@ -80,7 +84,7 @@ impl KnownFindings {
                 && k.signature == v.signature
                 && match (&k.case_hash, &k.family, &v.case) {
                     (Some(h), _, Some(c)) => *h == c.hash(),
-                    (None, Some(f), Some(c)) => *f == c.family,
+                    (None, Some(f), Some(c)) => *f == c.family && k.origin_prefix.as_deref().map_or(true, |p| c.origin.starts_with(p)),
                     (None, None, _) => true,
                     _ => false,
                 }
